@@ -815,9 +815,15 @@ def smt_expr_to_str(  # noqa: C901
         assert len(qfd_var_stack) > idx
         return qfd_var_stack[idx]
     if z3.is_string_value(f):
-        result = '"' + cast(str, f.as_string()).replace('"', r"\"") + '"'
-        result = result.replace(r"\u{}", r"\u{0}")
-        return result
+        # `sexpr()` yields the SMT-LIB literal: non-ASCII and control characters are
+        # escaped as `\u{...}`, quotes are doubled. In ISLa's concrete syntax, quotes are
+        # escaped with a backslash; a literal backslash must therefore be escaped, too.
+        smt_literal = cast(str, f.sexpr())
+        assert smt_literal[0] == '"' and smt_literal[-1] == '"'
+        result = re.sub(
+            r"\\(?!u\{[0-9a-fA-F]*\})", r"\\u{5c}", smt_literal[1:-1].replace('""', '"')
+        )
+        return '"' + result.replace('"', r"\"") + '"'
     if z3.is_int_value(f):
         return str(f.as_long())
     if z3.is_true(f):
